@@ -55,51 +55,44 @@ Theorem C09_unquote_quote_multi : forall wrap pr_tbl gr_tbl f s,
 Proof. exact unquote_quote_multi. Qed.
 Print Assumptions C09_unquote_quote_multi.
 
-(* single line with hashes (WithOptionalHashes), outside the failing class *)
+(* single line with hashes (WithOptionalHashes) *)
 Theorem C09_unquote_quote_hash : forall wrap pr_tbl gr_tbl f s,
   public_form f -> is_bytes s ->
-  eff_multiline f s = false -> eff_hash pr_tbl gr_tbl f s <> 0%nat -> lead2 (f_quote f) s = false ->
+  eff_multiline f s = false -> eff_hash pr_tbl gr_tbl f s <> 0%nat ->
   unquote wrap (quote pr_tbl gr_tbl f s) = Ok (expected f s).
 Proof. exact unquote_quote_hash. Qed.
 Print Assumptions C09_unquote_quote_hash.
 
-(* ---- round trip, every public form: bytes forms return every byte sequence
-   unchanged, string forms every valid UTF-8 text unchanged and otherwise exactly
-   [sanitize s] (each undecodable byte becomes U+FFFD) -- except on the class
-   [autohash_bad], where the tree under test fails (next theorem) ---- *)
-Theorem C09_unquote_quote_when : forall wrap pr_tbl gr_tbl f s,
-  public_form f -> is_bytes s -> ~ autohash_bad pr_tbl gr_tbl f s ->
+(* ---- round trip, every public form, EVERY byte sequence, unconditionally:
+   bytes forms return every byte sequence unchanged, string forms every valid
+   UTF-8 text unchanged and otherwise exactly [sanitize s] (each undecodable
+   byte becomes U+FFFD) ---- *)
+Theorem C09_unquote_quote_all : forall wrap pr_tbl gr_tbl f s,
+  public_form f -> is_bytes s ->
   unquote wrap (quote pr_tbl gr_tbl f s) = Ok (expected f s).
-Proof. exact unquote_quote_when. Qed.
-Print Assumptions C09_unquote_quote_when.
+Proof. exact unquote_quote_all. Qed.
+Print Assumptions C09_unquote_quote_all.
 
 Theorem C09_unquote_quote_bytes_forms : forall wrap pr_tbl gr_tbl f s,
-  public_form f -> f_exact f = true -> is_bytes s -> ~ autohash_bad pr_tbl gr_tbl f s ->
+  public_form f -> f_exact f = true -> is_bytes s ->
   unquote wrap (quote pr_tbl gr_tbl f s) = Ok s.
 Proof. exact unquote_quote_bytes_forms. Qed.
 Print Assumptions C09_unquote_quote_bytes_forms.
 
 Theorem C09_unquote_quote_string_forms : forall wrap pr_tbl gr_tbl f s,
-  public_form f -> is_bytes s -> valid_utf8 s -> ~ autohash_bad pr_tbl gr_tbl f s ->
+  public_form f -> is_bytes s -> valid_utf8 s ->
   unquote wrap (quote pr_tbl gr_tbl f s) = Ok s.
 Proof. exact unquote_quote_string_forms. Qed.
 Print Assumptions C09_unquote_quote_string_forms.
 
-(* the exact failing class: WithOptionalHashes, single line, a hash count is
-   chosen, and the text starts with two quote characters not followed by a hash:
-   the literal  # q q q x q #  (q the quote character) is read as the opening of a multi-line string *)
-Theorem C09_unquote_quote_autohash_bad : forall wrap pr_tbl gr_tbl f s,
-  public_form f -> is_bytes s ->
-  eff_multiline f s = false -> eff_hash pr_tbl gr_tbl f s <> 0%nat -> lead2 (f_quote f) s = true ->
-  unquote wrap (quote pr_tbl gr_tbl f s) = Err EMissingOpeningNewline.
-Proof. exact unquote_quote_hash_bad. Qed.
-Print Assumptions C09_unquote_quote_autohash_bad.
-
-Theorem C09_unquote_quote_refuted : exists f s,
-  public_form f /\ is_bytes s /\ valid_utf8 s /\
-  forall pr gr wrap, unquote wrap (quote pr gr f s) <> Ok s.
-Proof. exact unquote_quote_refuted. Qed.
-Print Assumptions C09_unquote_quote_refuted.
+(* the raw hash form is never chosen for a text starting with two quote characters,
+   so what follows the opening quote never reads as a multi-line opening (fix autohash) *)
+Theorem C09_hash_form_not_multiline_opening : forall pr_tbl gr_tbl f s, public_form f ->
+  eff_multiline f s = false -> eff_hash pr_tbl gr_tbl f s <> 0%nat ->
+  look3 (f_quote f) (s ++ f_quote f :: hashes (eff_hash pr_tbl gr_tbl f s)) = false /\
+  lead_qq (f_quote f) s = false.
+Proof. exact hash_form_not_multiline_opening. Qed.
+Print Assumptions C09_hash_form_not_multiline_opening.
 
 (* ---- the hash count is sufficient ---- *)
 
@@ -176,7 +169,7 @@ Print Assumptions C09_quote_fuel_sufficient.
 Example C09_ex_hash_form : forall pr gr,
   let f := with_optional_hashes string_form in
   let s := [97; 34; 35; 98] in
-  eff_multiline f s = false /\ eff_hash pr gr f s = 2%nat /\ lead2 (f_quote f) s = false /\
+  eff_multiline f s = false /\ eff_hash pr gr f s = 2%nat /\
   quote pr gr f s = [35; 35; 34; 97; 34; 35; 98; 34; 35; 35] /\
   unquote_impl (quote pr gr f s) = Ok s.
 Proof. exact ex_hash_form. Qed.
@@ -198,11 +191,14 @@ Example C09_ex_string_lossy : forall pr gr,
 Proof. exact ex_string_lossy. Qed.
 Print Assumptions C09_ex_string_lossy.
 
-Example C09_ex_autohash_witness : forall pr gr,
-  quote pr gr (with_optional_hashes string_form) [34; 34; 120] = [35; 34; 34; 34; 120; 34; 35] /\
-  unquote_impl (quote pr gr (with_optional_hashes string_form) [34; 34; 120]) = Err EMissingOpeningNewline.
-Proof. exact autohash_witness. Qed.
-Print Assumptions C09_ex_autohash_witness.
+Example C09_ex_autohash_lead_quotes : forall pr gr,
+  quote pr gr (with_optional_hashes string_form) [34; 34; 120] = [34; 92; 34; 92; 34; 120; 34] /\
+  unquote_impl (quote pr gr (with_optional_hashes string_form) [34; 34; 120]) = Ok [34; 34; 120] /\
+  quote pr gr (with_optional_hashes string_form) [34; 34; 35] = [34; 92; 34; 92; 34; 35; 34] /\
+  quote pr gr (with_optional_hashes string_form) [34; 120] = [35; 34; 34; 120; 34; 35] /\
+  unquote_impl [35; 34; 34; 34; 120; 34; 35] = Err EMissingOpeningNewline.
+Proof. exact autohash_lead_quotes. Qed.
+Print Assumptions C09_ex_autohash_lead_quotes.
 
 Example C09_ex_unquote_big_U_rejected :
   unquote_impl [34; 97; 98; 99; 92; 85; 70; 70; 70; 70; 70; 70; 70; 70; 100; 101; 102; 34] = Err ESyntax /\
